@@ -113,6 +113,43 @@ fn run_scenario(out: &mut Out, scn: &Value, n: usize) {
                              "outfwd": outfwd, "inrev": inrev, "verts": verts, "srcs": srcs, "dsts": dsts}));
         }
     }
+    // every third scenario: the same files behind a whole application; the network is read back through the accessors
+    // the application offers by id (SearchAppGraphOps: origin, destination, length in a requested unit, incident edges)
+    if n % 3 == 0 && !es.is_empty() {
+        use routee_compass::app::compass::compass_app::CompassApp;
+        use routee_compass::app::search::search_app_graph_ops::SearchAppGraphOps;
+        use routee_compass_core::model::network::VertexId;
+        use routee_compass_core::model::unit::DistanceUnit;
+        let mut toml = String::from("parallelism = 1\n");
+        toml.push_str(&format!("[graph]\nedge_list_input_file = \"{}\"\nvertex_list_input_file = \"{}\"\nverbose = false\n", epath.to_str().unwrap(), vpath.to_str().unwrap()));
+        toml.push_str("[algorithm]\ntype = \"a*\"\n[traversal]\ntype = \"distance\"\ndistance_unit = \"meters\"\n[access]\ntype = \"no_access_model\"\n");
+        toml.push_str("[cost]\ncost_aggregation = \"sum\"\n[cost.weights]\ndistance = 1\n[cost.vehicle_rates.distance]\ntype = \"raw\"\n");
+        toml.push_str("[frontier]\ntype = \"no_restriction\"\n[termination]\ntype = \"iterations\"\nlimit = 1000\n[plugin]\ninput_plugins = []\noutput_plugins = []\n");
+        let cpath = dir.join(format!("graph-app-{}.toml", n));
+        std::fs::write(&cpath, toml).unwrap();
+        match CompassApp::try_from(cpath.as_path()) {
+            Err(e) => out.event(json!({"ev": "AppGraphError", "msg": e.to_string()})),
+            Ok(app) => {
+                let sa = &app.search_app;
+                let mut edges = vec![];
+                let (mut m, mut km) = (vec![], vec![]);
+                for i in 0..es.len() {
+                    let id = EdgeId(i);
+                    let o = sa.get_edge_origin(&id).map(|v| v.0 as i64).unwrap_or(-1);
+                    let d = sa.get_edge_destination(&id).map(|v| v.0 as i64).unwrap_or(-1);
+                    let len = sa.get_edge_distance(&id, None).map(|x| scaled(x.as_f64(), 1.0)).unwrap_or(-1);
+                    edges.push(json!([i, o, d, len]));
+                    m.push(sa.get_edge_distance(&id, Some(DistanceUnit::Meters)).map(|x| scaled(x.as_f64(), 1.0)).unwrap_or(-1));
+                    km.push(sa.get_edge_distance(&id, Some(DistanceUnit::Kilometers)).map(|x| scaled(x.as_f64(), 1000.0)).unwrap_or(-1));
+                }
+                let ids = |v: Vec<EdgeId>| -> Vec<usize> { v.iter().map(|e| e.0).collect() };
+                let outv: Vec<Vec<usize>> = (0..nv).map(|v| ids(sa.get_incident_edge_ids(&VertexId(v), &Direction::Forward))).collect();
+                let innv: Vec<Vec<usize>> = (0..nv).map(|v| ids(sa.get_incident_edge_ids(&VertexId(v), &Direction::Reverse))).collect();
+                let beyond = sa.get_edge_origin(&EdgeId(es.len())).is_err() && sa.get_edge_distance(&EdgeId(es.len()), None).is_err();
+                out.event(json!({"ev": "AppGraph", "edges": edges, "m": m, "km_milli": km, "out": outv, "inn": innv, "beyond_is_error": beyond}));
+            }
+        }
+    }
     // per-edge tables: one row per edge, aligned by row
     let ne = es.len();
     if ne > 0 {
